@@ -695,6 +695,8 @@ def project(t, path):
         elif t[0] == "struct":
             hit = [ft for (fname, ft) in t[2:] if fname == p]
             t = hit[0] if hit else ("field", t, p)
+        elif t[0] == "range" and len(t) == 4 and p in ("start", "end") and not (p == "end" and t[3]):
+            t = t[1] if p == "start" else t[2]        # `(lo..hi).start` / `.end` (the fields of a half-open Range)
         else:
             t = ("field", t, str(p))
     return t
